@@ -46,6 +46,8 @@ def cases(tier, variants):
             for fam in F.NONCONVEX:
                 for n in (2, 3):
                     for box in ("box", "mixed"):
+                        if fam == "linear" and box == "mixed":
+                            continue   # unbounded below along the free sides: no minimiser
                         for start in ("face", "vertex"):
                             for ji in range(4):
                                 for si in range(3):
